@@ -17,6 +17,7 @@ DTYPES = ['uint8', 'uint5', 'int7', 'uint12', 'int16', 'uintle16', 'intbe24', 'u
 
 def dtype_info(d):
     from bitstring import Dtype, Array
+    if str(d).startswith('Dtype('): return '', 0          # the str() of a scaled dtype: no rule of the oracle applies to those
     a = Array(d)
     return a.dtype.name, a.dtype.bitlength
 
@@ -49,7 +50,7 @@ def gen_step(rng, d, n):
         if rng.random() < 0.15: s['as_array'] = rng.choice([2, 4])
     if op == 'insert': s.update(i=idx(), v=rand_item(rng, d))
     if op == 'count': s['v'] = rand_item(rng, d)
-    if op == 'astype': s['d'] = rng.choice(['uint8', 'int16', 'hex4', 'float16'])
+    if op == 'astype': s['d'] = rng.choice(['uint8', 'int16', 'hex4', 'float16'] * 2 + REFUSED_DTYPES)
     if op in ('scalar_op', 'inplace_op'): s.update(f=rng.choice(['add', 'sub', 'mul', 'floordiv', 'truediv', 'mod', 'lshift', 'rshift', 'and', 'or', 'xor', 'lt', 'eq', 'neg', 'abs', 'radd', 'rsub', 'rsub', 'rmul']), x=rng.choice([0, 1, 2, 3, -1, 0.5, 7, 255, 256, 300]))
     if op == 'array_op': s.update(f=rng.choice(['add', 'sub', 'mul', 'lt', 'eq']), d2=rng.choice(['uint8', 'int16', 'float16', 'uint5', 'int7', 'float32']), same_len=rng.random() < 0.85)
     return s
@@ -61,6 +62,10 @@ def gen_cases(rng, tier):
         for d2 in PROMO:
             if tier == 'quick' and rng.random() < 0.7: continue
             yield {'op': 'promote', 'd1': d1, 'd2': d2, 'f': rng.choice(['mul', 'mul', 'add', 'sub'])}
+    # ... and for dtypes that differ only in their scale (same name and length: "a tie goes to the first", D62), or in scale and something else
+    for d1, d2 in (('uint8', 'uint8'), ('int16', 'int16'), ('float16', 'float16'), ('uint8', 'uintbe8'), ('uint8', 'int8'), ('uint16', 'uint8'), ('float32', 'int16'), ('e4m3mxfp', 'e4m3mxfp')):
+        for s1, s2 in ((2, 4), (4, 2), (None, 2), (2, None), (2, 2)):
+            yield {'op': 'promote', 'd1': d1, 'd2': d2, 's1': s1, 's2': s2, 'f': rng.choice(['add', 'sub'])}
     # every element-wise operator on every float dtype, on items that include both zeros (the sign of a zero result is part of the value)
     for d in ('float16', 'float32', 'float64', 'floatle32', 'bfloat', 'p4binary', 'e4m3mxfp', 'e5m2mxfp', 'e2m1mxfp'):
         for f, x in (('neg', 0), ('abs', 0), ('add', 0.0), ('add', -0.0), ('sub', 0.0), ('mul', -1.0), ('mul', 1.0), ('rsub', 0.0), ('rsub', -0.0), ('radd', -0.0), ('rmul', -1.0), ('mul', 0.0), ('mul', -0.0)):
@@ -80,6 +85,9 @@ def gen_cases(rng, tier):
 
 PROMO = ['uint8', 'uint5', 'int7', 'int16', 'uint16', 'int8', 'float16', 'float32', 'float64', 'bfloat', 'e4m3mxfp', 'e5m2mxfp', 'e3m2mxfp', 'e2m3mxfp', 'e2m1mxfp', 'e8m0mxfp', 'mxint',
          'p4binary', 'p3binary', 'bool', 'uintle16', 'intbe16', 'hex4', 'bytes1']
+
+# dtype assignments that must be refused (ValueError) and leave the Array exactly as it was: 'auto' scales (only valid at creation), zero or missing lengths
+REFUSED_DTYPES = ['auto:e4m3mxfp', 'auto:float16', 'auto:uint8', 'uint0', 'hex0', 'se', 'float', 'bytes0']
 
 def kind(c): return c.get('dtype', c['op'])
 
@@ -148,7 +156,9 @@ def apply_impl(a, st, rng):
     if op == 'iter': return [cv(x) for x in a]
     if op == 'equals': return [a.equals(Array(a.dtype, a.tolist(), trailing_bits=a.trailing_bits)), a.equals(a[:-1]) if len(a) else False, a.equals(5)]
     if op == 'astype':
-        before = a.data.bin; a.dtype = st['d']; return [before == a.data.bin]
+        before = a.data.bin
+        a.dtype = bitstring.Dtype(st['d'][5:], scale='auto') if st['d'].startswith('auto:') else st['d']
+        return [before == a.data.bin]
     if op == 'byteswap':
         return a.byteswap()
     if op in ('scalar_op', 'inplace_op'):
@@ -170,15 +180,18 @@ def run_impl(c):
     import bitstring, random
     from bitstring import Array, Bits
     if c['op'] == 'promote':
-        def one(d):
+        def one(d, sc=None):
             a = Array(d)
+            if sc is not None:
+                d = bitstring.Dtype(d, scale=sc)
+                return Array(d, [float(sc), float(sc)] if a.dtype.return_type is float else [sc, sc])
             if a.dtype.return_type in (float,): return Array(d, [1.0, 1.0])
             if a.dtype.return_type is bool: return Array(d, [True, True])
             if a.dtype.return_type is int: return Array(d, [1, 1])
             if d.startswith('hex'): return Array(d, ['1', '1'])
             return Array(d, [b'a', b'a'])
         def f():
-            a, b = one(c['d1']), one(c['d2'])
+            a, b = one(c['d1'], c.get('s1')), one(c['d2'], c.get('s2'))
             r = OPS[c['f']](a, b)
             return [str(r.dtype), [cv(x) for x in r.tolist()], str(a.dtype), str(b.dtype)]
         return attempt(f)
@@ -233,11 +246,13 @@ def oracle(c, obs):
         import traceback
         return 'oracle error: ' + traceback.format_exc()[-300:]
 
-def promo_rule(d1, d2):
+def promo_rule(d1, d2, s1=None, s2=None):
     """the documented rules (Array._promotetype docstring / doc/array.rst): only int and float kinds; float beats int; signed int beats unsigned int;
     longer beats shorter; a tie goes to the first"""
-    from bitstring import Array
+    from bitstring import Array, Dtype
     t1, t2 = Array(d1).dtype, Array(d2).dtype
+    if s1 is not None: t1 = Dtype(d1, scale=s1)
+    if s2 is not None: t2 = Dtype(d2, scale=s2)
     fl = lambda t: t.return_type is float
     it = lambda t: t.return_type is int or t.return_type is bool
     if not ((fl(t1) or it(t1)) and (fl(t2) or it(t2))): return None
@@ -247,7 +262,7 @@ def promo_rule(d1, d2):
 
 def oracle_(c, obs):
     if c['op'] == 'promote':
-        exp = promo_rule(c['d1'], c['d2'])
+        exp = promo_rule(c['d1'], c['d2'], c.get('s1'), c.get('s2'))
         if exp is None:
             return None if obs[0] == 'err' and obs[1] in ('ValueError', 'TypeError') else f"Arrays of {c['d1']} and {c['d2']} (not both int/float) combined: {obs}"
         if obs[0] != 'ok': return None          # the result may not fit the promoted type (it raises, as documented)
@@ -348,6 +363,7 @@ def oracle_(c, obs):
             elif op == 'equals':
                 if r[0] == 'ok' and ['f', 'nan'] not in L and (r[1][0] is not True or r[1][2] is not False or (n and r[1][1] is not False)): return f"{where}: equals gave {r}"
             elif op == 'astype':
+                if st['d'] in REFUSED_DTYPES and r != ['err', 'ValueError']: return f"{where}: assigning this dtype must raise ValueError, got {str(r)[:100]}"
                 if r[0] == 'ok' and r[1] != [True]: return f"{where}: changing dtype altered the data"
                 if r[0] == 'ok' and data2 != data: return f"{where}: data changed"
         except IndexError:
@@ -379,7 +395,7 @@ def oracle_(c, obs):
                 got = [enc_item(dt, g) for g in r[1][0][0]]
                 if None not in want and want != got:
                     return f"{where}: element-wise result {r[1][0][0]}, the operator mapped over the items gives {[cv(e) for e in exp]} (compared through their encodings, sign of zero included)"
-        if op in ('scalar_op',) and r[0] == 'ok' and r[1] != 'skip' and name in ('uint', 'int') and not trail:
+        if op in ('scalar_op',) and r[0] == 'ok' and r[1] != 'skip' and dtype_info(dt)[0] in ('uint', 'int') and all(isinstance(v, int) and not isinstance(v, bool) for v in L) and not trail:
             f = st['f']; x = st['x']
             try:
                 if f == 'neg': exp = [-v for v in L]
